@@ -358,7 +358,15 @@ func (x *Exec) slice(st *State, in *ssa.Slice) Val {
 	if base.Sort == "Str" {
 		return mkT("Str", App("Str", "ssub", base, lo, hi).S, in.Type())
 	}
-	return mkT(base.Sort, App(base.Sort, "sub_"+seqElem(base.Sort), base, lo, hi).S, in.Type())
+	res := mkT(base.Sort, App(base.Sort, "sub_"+seqElem(base.Sort), base, lo, hi).S, in.Type())
+	if _, isSlice := in.X.Type().Underlying().(*types.Slice); isSlice && in.High != nil {
+		// a view that stops before the end of the original: appending to it would overwrite the original's elements
+		if st.views == nil {
+			st.views = map[string]bool{}
+		}
+		st.views[res.S] = true
+	}
+	return res
 }
 
 func simplAdd(a, b *Term) *Term {
